@@ -383,6 +383,33 @@ EvSetsAliasA(w) ==
 
 ----------------------------------------------------------------------------
 
+\* Family "extract" (C16): object 1 is a catalog grown by SetValue / RemoveValue,
+\* object 3 a key list made from a Go array literal (object 2); Extract for every
+\* (catalog, keys); then the catalog is changed (costly steps) and extracted from
+\* again: whatever an earlier Extract left behind must not show
+EventsExtract(w) ==
+    CASE Len(w) = 0 -> {E("Catalog", "Make", 0, <<>>, "A")}
+      [] Len(w) = 1 -> {E("Catalog", "SetValue", 1, <<t, v>>, "") : t \in Toks, v \in 0..1} \cup
+                       {E("Catalog", "RemoveValue", 1, <<t>>, "") : t \in Toks} \cup
+                       {E("GoArray", "New", 0, <<l>>, "K") : l \in Lits}
+      [] Len(w) = 2 -> {E("List", "MakeFromArray", 0, <<2>>, "K")}
+      [] Len(w) \in {3, 4} -> {E("Catalog", "Extract", 0, <<1, 3>>, "A")}
+      [] OTHER -> {}
+\* Families "keysC" / "keysM" (C03, C14): the bulk operations taking a key
+\* sequence on a grown catalog / map, for every (content, keys) combination
+EventsKeys(k, w) ==
+    CASE Len(w) = 0 -> {E(k, "Make", 0, <<>>, "A")}
+      [] Len(w) = 1 -> {E(k, "SetValue", 1, <<t, v>>, "") : t \in Toks, v \in 0..1} \cup
+                       {E(k, "RemoveValue", 1, <<t>>, "") : t \in Toks} \cup
+                       {E("GoArray", "New", 0, <<l>>, "K") : l \in Lits}
+      [] Len(w) = 2 -> {E("List", "MakeFromArray", 0, <<2>>, "K")}
+      [] Len(w) = 3 -> {E(k, m, 1, <<3>>, "") : m \in {"GetValues", "RemoveValues"}}
+      [] OTHER -> {}
+ExtractMut(w) ==
+    IF Len(w) # 4 THEN {}
+    ELSE {E("Catalog", "SetValue", 1, <<t, 1>>, "") : t \in Toks} \cup
+         {E("Catalog", "RemoveValue", 1, <<t>>, "") : t \in Toks}
+
 \* A sequence of event sets (each set homogeneous in the types of its
 \* arguments: TLC cannot compare an integer token with a pair token).
 EvSets(w) ==
@@ -396,6 +423,9 @@ EvSets(w) ==
       [] Family = "map"      -> << EventsAssoc("Map", w) >>
       [] Family = "merge"    -> << EventsMerge(w), Costly(MergeMut(w)) >>
       [] Family = "queueseq" -> << EventsQueueSeq(w) >>
+      [] Family = "extract"  -> << EventsExtract(w), Costly(ExtractMut(w)) >>
+      [] Family = "keysC"    -> << EventsKeys("Catalog", w) >>
+      [] Family = "keysM"    -> << EventsKeys("Map", w) >>
       [] Family = "sort"     -> << EventsSort(w) >>
       [] Family = "sortA"    -> << EventsSortA(w) >>
       [] Family = "alias"    -> EvSetsAlias(w)
